@@ -55,12 +55,20 @@ func (f *Tagbody) Call(s *slip.Scope, args slip.List, depth int) slip.Object {
 			// A tag. Tags are not evaluated.
 			continue
 		}
-		if gt, _ := slip.EvalArg(ns, args, i, d2).(*GoTo); gt != nil {
+		switch tr := slip.EvalArg(ns, args, i, d2).(type) {
+		case *slip.ReturnResult:
+			// Leaving for an enclosing block.
+			return tr
+		case *GoTo:
 			// The tag can be before or after the go form.
 			for i = 0; i < len(args); i++ {
-				if args[i] == gt.Tag {
+				if args[i] == tr.Tag {
 					break
 				}
+			}
+			if len(args) <= i {
+				// Not a tag of this tagbody, pass it on to an enclosing tagbody.
+				return tr
 			}
 		}
 	}
